@@ -504,6 +504,15 @@ def run(ctx):
         do(overlap_case(rng, ctx.tier), overlap_fails)
     for i in range(n):
         do(shapeop_case(rng, ctx.tier), shapeop_fails)
+    # symvec of NON-symmetric matrices for every storage convention (only the named triangle defines the matrix), on every run
+    for uplo in ('F', 'L', 'U', None):
+        for n_ in (2, 3):
+            D_, P_ = rng.randint(1, 3), rng.randint(1, 2)
+            xs = np.array(intdata(rng, (D_, P_, n_, n_)), dtype=float)
+            xs = xs + np.triu(np.ones((n_, n_)), 1) * 7.0          # upper and lower triangle certainly differ
+            if uplo in ('F', None):
+                xs = xs + np.swapaxes(xs, 2, 3)
+            do({'op': 'symvec', 'D': D_, 'P': P_, 'x': xs, 'uplo': uplo}, shapeop_fails)
     # sum over a tuple of axes with negative entries, on every run
     for axes in ([-1], [0, -1], [-2, -1], [-3], [1, -3], [-1, 0]):
         D_, P_ = rng.randint(1, 3), rng.randint(1, 2)
